@@ -4,8 +4,8 @@ import DoraModel.Wait.Hmap
 
 `Lookup m k v` ("some slot holds the live entry `k ↦ v`") is the abstraction relation; an abstract map
 `a : Nat → Option Nat` is represented by `m` when `a k = some v ↔ Lookup m k v` (`Repr`).
-`WInv ep m` is the part of the invariant the code DOES preserve; `HasEmpty m` ("an EMPTY slot exists", what
-makes the probe loops terminate) is the part it does not (Props/C09.lean: `hmap_inv_not_preserved`).
+`WInv ep m` is the invariant; it implies `HasEmpty m` ("an EMPTY slot exists", what makes the probe loops
+terminate) for every table of capacity > 0, because tombstones count towards the load factor (`winv_hasEmpty`).
 -/
 namespace Dora.Wait.Hmap
 
@@ -38,7 +38,10 @@ structure WInv (ep : Nat) (m : Map) : Prop where
   nodup : NoDup m.data
   /-- only a table built under the current epoch is hashed by the current addresses -/
   hashed : m.gcEpoch = ep → Hashed m.data m.capacity
-  load : m.entries ≤ m.capacity - m.capacity / 4
+  /-- the `deleted` counter is the number of tombstones -/
+  del : m.deleted = tombstones m
+  /-- live entries and tombstones together stay below the load limit: an EMPTY slot always exists -/
+  load : m.entries + m.deleted ≤ m.capacity - m.capacity / 4
 
 /-! ## arithmetic of the probe sequence -/
 
